@@ -24,6 +24,7 @@ import (
 	"verif/harness/ev"
 	"verif/harness/hostile"
 	"verif/harness/inputs"
+	"verif/harness/iofault"
 	"verif/harness/isolate"
 	"verif/harness/known"
 	"verif/harness/psgen"
@@ -36,6 +37,31 @@ type hcase struct {
 	Target string `json:"target"` // interp, cmap, type1, afm, pfb
 	Data   []byte `json:"data"`
 	Label  string `json:"label,omitempty"`
+	// Sizes: read sizes of the delivery schedule (cycled); empty = the whole
+	// input is available at once.  EOFWithData: the last chunk comes together
+	// with io.EOF.
+	Sizes       []int `json:"sizes,omitempty"`
+	EOFWithData bool  `json:"eof_with_data,omitempty"`
+}
+
+// schedule draws a delivery schedule for a hostile input: mostly all at once,
+// otherwise 1-4 cycled read sizes around the sizes of the library's buffers.
+func (c *hcase) schedule(t *rapid.T) *hcase {
+	if rapid.IntRange(0, 3).Draw(t, "delivery") != 0 && c.Label != "soup" {
+		return c
+	}
+	pool := []int{1, 2, 3, 7, 64, 255, 256, 257, 500, 511, 512, 513, 700, 1023, 1024, 1025, 4096}
+	if rapid.Bool().Draw(t, "smallreads") {
+		// mixtures of very short reads: many read boundaries, and what an
+		// earlier, longer read left in a buffer lies just behind the data of
+		// a shorter one
+		pool = []int{1, 2, 3, 4, 5, 7, 9, 13}
+	}
+	for n := rapid.IntRange(1, 4).Draw(t, "nsizes"); n > 0; n-- {
+		c.Sizes = append(c.Sizes, rapid.SampledFrom(pool).Draw(t, "readsize"))
+	}
+	c.EOFWithData = rapid.Bool().Draw(t, "eofwithdata")
+	return c
 }
 
 const interpMaxOps = 3000
@@ -54,7 +80,10 @@ func exec(c *hcase) (res string) {
 			res = fmt.Sprintf("PANIC %v @ %s", p, strings.Join(keep, " | "))
 		}
 	}()
-	r := bytes.NewReader(c.Data)
+	var r io.Reader = bytes.NewReader(c.Data)
+	if len(c.Sizes) > 0 || c.EOFWithData {
+		r = &iofault.Chunks{Data: c.Data, Sizes: c.Sizes, WithEOF: c.EOFWithData}
+	}
 	var err error
 	switch c.Target {
 	case "interp":
@@ -331,7 +360,7 @@ func TestP1Tuples(t *testing.T) {
 func TestP2Programs(t *testing.T) {
 	rec := ev.New("C01", "programs")
 	defer rec.Finish(t)
-	rec.Rule("interpreter with MaxOps = 3000: recursion, self-reference and extreme-count hostile.Templates (procedure holding itself in every slot then bind, arrays containing themselves under forall/loop, self- and mutually recursive names, cycles of names whose value is an executable name, exec of itself, begin/push loops, for with zero increment or overflowing control variable, copy/putinterval/getinterval/roll/index/repeat/array/string with counts near 2^63, failing error handlers, eexec/readstring/closefile on the current file, forall over systemdict with redefinition, CMap operators outside their blocks, unterminated strings and procedures, extreme numbers, odd DSC lines, control bytes), each alone and composed with random programs of the C02/C03 generators and with random byte strings and mutated programs. Same child-process oracle as the tuples part. Non-trivial: program has >= 2 tokens; distinct by text.")
+	rec.Rule("interpreter with MaxOps = 3000: recursion, self-reference and extreme-count hostile.Templates (procedure holding itself in every slot then bind, arrays containing themselves under forall/loop, self- and mutually recursive names, cycles of names whose value is an executable name, exec of itself, begin/push loops, for with zero increment or overflowing control variable, copy/putinterval/getinterval/roll/index/repeat/array/string with counts near 2^63, failing error handlers, eexec/readstring/closefile on the current file, forall over systemdict with redefinition, CMap operators outside their blocks, unterminated strings and procedures, extreme numbers, odd DSC lines, control bytes), each alone and composed with random programs of the C02/C03 generators and with random byte strings and mutated programs; texts of 300-1700 bytes made of short lexical pieces dense in comments, DSC lines, strings and line ends of all kinds, cut at any byte. These texts and a quarter of the other generated inputs of every part are delivered in cycled short reads (sizes 1-4096 around the library's buffer sizes, or mixtures of sizes 1-13), with or without the last data arriving together with io.EOF. Same child-process oracle as the tuples part. Non-trivial: program has >= 2 tokens; distinct by text.")
 	var cases []*hcase
 	sh, n := ev.Shard()
 	for i, tm := range hostile.Templates {
@@ -342,8 +371,34 @@ func TestP2Programs(t *testing.T) {
 	cfg := psgen.Config{TypeLiteral: true}
 	ev.SetupRapid(12000, 400000)
 	rapid.Check(t, func(t *rapid.T) {
-		var text string
-		switch rapid.IntRange(0, 4).Draw(t, "kind") {
+		var text, label string
+		switch rapid.IntRange(0, 6).Draw(t, "kind") {
+		case 5, 6:
+			// short lexical pieces dense in comments and line ends of all
+			// kinds, 300-1700 bytes long and cut anywhere: token, comment and
+			// line-end boundaries meet the boundaries of the scanner's buffer
+			// and the end of the input in every combination
+			// (pieces that end the run with an error are rare, so that most of
+			// the text is actually scanned)
+			pieces := []string{"%c", "%", "%%K: v", "%%+ w", "%comment", "\r", "\n", "\r\n", "\r", "\n", " ", "1 pop", "(s\r) pop", "(\\\r\n) pop", "/n pop", "<41> pop", "<~87~> pop", "{ } pop", "[ ] pop", "<< >> pop", "\f", "\x00", "12345678901234567890 pop", "-.5e3 pop", "16#ff pop"}
+			bad := []string{"x", "(", ")", "<", "~>", "\\", "{", "}", "]", ">>", "<~"}
+			var sb strings.Builder
+			want := rapid.IntRange(300, 1700).Draw(t, "souplen")
+			for sb.Len() < want {
+				if rapid.IntRange(0, 99).Draw(t, "badpiece") == 0 {
+					sb.WriteString(bad[rapid.IntRange(0, len(bad)-1).Draw(t, "bad")])
+					continue
+				}
+				p := pieces[rapid.IntRange(0, len(pieces)-1).Draw(t, "piece")]
+				sb.WriteString(p)
+				if p[0] == '%' {
+					sb.WriteString(rapid.SampledFrom([]string{"\r", "\n", "\r\n", "\r"}).Draw(t, "commentend"))
+				} else if len(p) > 2 {
+					sb.WriteString(" ")
+				}
+			}
+			text = sb.String()[:want]
+			label = "soup"
 		case 0:
 			toks, _ := psgen.Control(t, 40)
 			text = psgen.Spell(toks) + " " + hostile.Templates[rapid.IntRange(0, len(hostile.Templates)-1).Draw(t, "template")]
@@ -362,7 +417,7 @@ func TestP2Programs(t *testing.T) {
 		default:
 			text = string(rapid.SliceOfN(rapid.Byte(), 0, 200).Draw(t, "raw"))
 		}
-		cases = append(cases, &hcase{Target: "interp", Data: []byte(text)})
+		cases = append(cases, (&hcase{Target: "interp", Data: []byte(text), Label: label}).schedule(t))
 	})
 	runBatch(rec, cases, func(c *hcase, _ string) bool { return len(bytes.Fields(c.Data)) >= 2 })
 	if len(cases) > 2 {
@@ -407,7 +462,7 @@ func TestP3Fonts(t *testing.T) {
 			cases = append(cases, &hcase{Target: "type1", Data: b, Label: "raw"})
 		default:
 			f, label := hostile.Font(t)
-			cases = append(cases, &hcase{Target: "type1", Data: t1ref.WriteRaw(f), Label: label})
+			cases = append(cases, (&hcase{Target: "type1", Data: t1ref.WriteRaw(f), Label: label}).schedule(t))
 		}
 	})
 	// every charstring command (all one-byte codes 0-31 and escapes 12 0-40)
@@ -464,15 +519,15 @@ func TestP4Others(t *testing.T) {
 	rapid.Check(t, func(t *rapid.T) {
 		switch rapid.IntRange(0, 6).Draw(t, "target") {
 		case 0, 1:
-			cases = append(cases, &hcase{Target: "cmap", Data: hostile.CMap(t)})
+			cases = append(cases, (&hcase{Target: "cmap", Data: hostile.CMap(t)}).schedule(t))
 		case 2:
 			cases = append(cases, &hcase{Target: "cmap", Data: rapid.SliceOfN(rapid.Byte(), 0, 200).Draw(t, "raw")})
 		case 3, 4:
-			cases = append(cases, &hcase{Target: "afm", Data: hostile.AFM(t)})
+			cases = append(cases, (&hcase{Target: "afm", Data: hostile.AFM(t)}).schedule(t))
 		case 5:
-			cases = append(cases, &hcase{Target: "pfb", Data: hostile.PFB(t)})
+			cases = append(cases, (&hcase{Target: "pfb", Data: hostile.PFB(t)}).schedule(t))
 		default:
-			cases = append(cases, &hcase{Target: "type1", Data: hostile.PFB(t)})
+			cases = append(cases, (&hcase{Target: "type1", Data: hostile.PFB(t)}).schedule(t))
 		}
 	})
 	runBatch(rec, cases, func(c *hcase, _ string) bool { return len(c.Data) > 8 })
